@@ -112,14 +112,14 @@ class CaseGen:
         uni = [(i % 16 if i != 17 else 9, 'u%d' % i if i % 2 else NAMES[i]) for i in range(20)]
         for (L, keep) in CONFIGS:
             maxc = 1 << (L - 1)
-            for rep in range((6 if L < 15 else 2) * scale):
+            for rep in range(6 * scale if L < 15 else 2):
                 idx = list(range(20)); r.shuffle(idx)
                 idx = idx[:r.range(1, min(20, maxc + 1))]
                 ops = ['a %s %s' % (colstr(uni[i][0], fnv(uni[i][1])), uni[i][1]) for i in idx]
                 out.append(self.finish(L, keep, ops, [fnv(uni[i][1]) for i in idx]))
         # 2. random histories aimed at retries, refusals, duplicates, the column limit
         for i in range(260 * scale):
-            L, keep = r.choice(CONFIGS[:-1]) if r.below(25) else CONFIGS[-1]
+            L, keep = r.choice(CONFIGS[:-1]) if r.below(70) else CONFIGS[-1]
             maxc = 1 << (L - 1)
             nops = r.range(1, min(14, maxc + 3))
             ops, used = self.history(L, keep, nops, dup_rate=r.choice([0, 5, 25]))
